@@ -37,6 +37,11 @@ def generate(tier, rng):
                 val = STRS[(j + k) % len(STRS)] if t == 's' else (INTS[(j + i + k) % len(INTS)] if t == 'i' else (j + k) % 2 == 0)
                 props.append((key, t, val))
                 allkeys.add(key)
+            if i == 0 and k % 2 == 0:
+                # the same key declared with several types on one variant: each getter sees its own
+                for key, t, val in (('dup', 's', 'large'), ('dup', 'i', 12), ('dup', 'b', True), ('two', 'i', -1), ('two', 's', 'x')):
+                    props.insert((k + len(key)) % (len(props) + 1), (key, t, val))
+                    allkeys.add(key)
             v.props = props
             ng = 1 + (i + k) % 3
             sizes = []
